@@ -15,7 +15,8 @@ import orbits
 ID = "C03"
 LEAN_TARGETS = ["PV.Props.C03"]
 # T-D: functions translated from the source by harness/pytrans.py, proved equal to the model (DESIGN section 0)
-EQUIV = {"PV.Equiv.TranslatedPasses": ["loop_eq", "zeroCrossings_lt", "get_next_passes_eq"]}
+EQUIV = {"PV.Equiv.TranslatedPasses": ["loop_eq", "zeroCrossings_lt", "get_next_passes_eq_of", "get_next_passes_eq"],
+         "PV.Equiv.TranslatedPassesParab": ["get_next_passes_parab"]}
 EQUIV.update({"PV.Equiv.TranslatedParab": ["loop_eq", "get_max_parab_eq"], "PV.Equiv.TranslatedParabReal": ["get_max_parab_real", "get_max_parab_quadratic"]})      # T-D
 RULE = ("cases (TLE, observer, start, length, horizon): TLEs = the near-earth element sets of pyorbital's tests / SGP4-VER "
         "plus as many random 'leo' and 'near' (eccentric, period < 225 min) element sets from tlegen; start = epoch +- 3 d; "
